@@ -209,6 +209,38 @@ def cross_variant_oracle(traces, pid="C14"):
     return out
 
 
+def corr_crash(pid, tier, seed, feats, nq, nt, oracle_props=None):
+    """Crash correspondence: short workloads, every I/O boundary a crash point, images cut
+    (none / durable / byte cuts), opened by the real engine and by the model."""
+    rundir = _rundir(pid)
+    scen = corpus_scenarios(pid)
+    hist = {}
+    n = nq if tier == "quick" else nt
+    for feat in feats:
+        s, h = gen_scripts("crashgen", seed, max(1, n // len(feats)), rundir, extra="-feat %s" % feat)
+        # gen_scripts writes gen_crashgen.txt each time: rename scenarios
+        scen.extend(s)
+        for k, v in h.items():
+            hist[k] = hist.get(k, 0) + v
+    for i, sc in enumerate(scen):
+        sc[0] = "S %d" % i
+    os.environ["VERIF_TIER"] = tier
+    r = run_scripts(pid, rundir, scen)
+    idx = {str(i): sc for i, sc in enumerate(scen)}
+    props_ = oracle_props or [pid]
+    oracle = [o for o in r["oracle"] if o.split()[1] in props_]
+    crash_points = 0
+    for tp in r["traces"]:
+        if os.path.exists(tp):
+            crash_points += sum(1 for l in read_lines(tp) if l.startswith("E crashat"))
+    sample = scen[len(scen) // 2] if scen else []
+    return {"evaluations": len(scen), "distinct_nontrivial": nontrivial_count(scen, lambda sc: any("crashscan" in l for l in sc)),
+            "rule": "crash scenarios from VERIF_SEED (harness/vh crashgen: %s); every I/O event boundary after the mark is a crash point (thinned to 40 per scan in quick, 400 in thorough), each with no cut, the durable cut and byte-granular cuts of the unsynced tail; every image is opened twice by the real engine and by the model (Crash.v) and the dumps compared; non-trivial = contains a crash scan; distinct by md5" % ",".join(feats),
+            "samples": [sample[:30]], "hist": hist, "observations_compared": r["checked"],
+            "mismatches": r["mismatches"], "oracle": oracle, "errors": r["errors"], "scen_index": idx,
+            "extra_crash_points": crash_points}
+
+
 NOEV = "-noevents -skip files,stat,pos"
 
 REGISTRY = {
@@ -244,6 +276,16 @@ REGISTRY = {
                                                dflags="-noevents", oracle_props=["C17"]),
         "assumptions": ["the size equation is proved for merge-free histories with restarts and for histories with merges without restart; the adopting restart (hint path) and the file-size limit are covered by the correspondence run (Stat, positions and file sizes compared with the model at every step) and the oracle",
                         "oracle on the implementation: Stat.KeyNum = live keys, 0 <= Reclaimable <= DiskSize, DiskSize - Reclaimable = sum of the sizes of the live positions, DataFileNum = open files"],
+    },
+    "C03": {
+        "corr": lambda tier, seed: corr_crash("C03", tier, seed, ["plain", "batch"], 60, 1200, oracle_props=["C03", "C04"]),
+        "assumptions": ["crash model: the process dies between two I/O calls; a power failure additionally cuts any not-yet-synced tail at any byte; the surviving prefix is intact; directory operations are atomic and durable",
+                        "theorems cover crash images of operation-boundary states with arbitrary cuts (merge-free histories); images at the I/O events inside an operation are compared between model and real engine by this run",
+                        "memory-mapped files: only process crashes are compared (a power-failure cut inside a mapped file leaves a partial record followed by zeros, which Open rejects with a CRC error: known limitation recorded in DESIGN.md)"],
+    },
+    "C04": {
+        "corr": lambda tier, seed: corr_crash("C04", tier, seed, ["batch"], 50, 1000, oracle_props=["C04", "C03"]),
+        "assumptions": ["as C03; batch ids are the snowflake ids observed from the implementation (an input of the model); distinctness of the ids of a crashed (unsealed) batch and of later batches is assumed"],
     },
     "C05": {
         "corr": lambda tier, seed: corr_engine("C05", tier, seed, "batches,restarts,bigvals", 120, 3000, ops=30,
